@@ -42,6 +42,62 @@ pub fn declared_sweep(ctx: &mut Ctx, n: u64) {
     }
 }
 
+/// Repeated attribute types: for each of the 19 built-in types, messages that carry it two or three
+/// times in every valid / invalid combination (lookups, typed ones included, answer with the first).
+pub fn repeated_types(ctx: &mut Ctx, reps: u64) {
+    use crate::refimpl::attrs::ref_encode;
+    use crate::refimpl::parse::{encode, Tlv};
+    let mut rng = ctx.rng("repeated-types", 0);
+    let mut gi = 0u64;
+    for k in crate::gen::msg::all_kinds().iter().copied() {
+        if matches!(k.code(), 0x0008 | 0x001c | 0x8028) {
+            continue; // the sealing types cannot be repeated in an accepted message
+        }
+        for rep in 0..reps {
+            for pattern in 0..8u32 {
+                gi += 1;
+                if !ctx.mine(gi) {
+                    continue;
+                }
+                let tid = crate::gen::msg::gen_tid(&mut rng);
+                let n = if pattern < 4 { 2 } else { 3 };
+                let mut tlvs = vec![];
+                if rep % 2 == 1 {
+                    tlvs.push(Tlv::new(0x7f33, rng.bytes(3)));
+                }
+                for j in 0..n {
+                    let valid = pattern >> j & 1 == 1;
+                    let v = if valid {
+                        let rv = crate::gen::vals::gen_refval(&mut rng, k);
+                        ref_encode(k, &rv, &tid).unwrap()
+                    } else {
+                        // wrong length for the fixed-size types, invalid UTF-8 for the text ones
+                        match k.text_limit() {
+                            Some(_) => vec![b'a', 0xff, 0xfe, b'z'],
+                            None => {
+                                let l = *rng.pick(&[1usize, 3, 5, 7, 13]);
+                                rng.bytes(l)
+                            }
+                        }
+                    };
+                    tlvs.push(Tlv::new(k.code(), v));
+                    if rep % 3 == 2 {
+                        tlvs.push(Tlv::new(0xff44 + j as u16, rng.bytes(2)));
+                    }
+                }
+                let buf = encode((rep % 4) as u8, 1, &tid, &tlvs);
+                let o = Opts { typed: true, ..Opts::default() };
+                check_buffer(ctx, &buf, &o);
+                ctx.eval();
+                ctx.count("repeated-type-messages");
+                if pattern == 2 && rep == 0 && k.code() == 0x0024 {
+                    ctx.sample("repeated-type", || codec::wit_bytes("Message::attribute", &buf, &o));
+                }
+            }
+        }
+    }
+}
+
 pub fn run(ctx: &mut Ctx) {
     let cfg = StreamCfg { deep: false, typed: true, npolice: 0 };
     let quick = ctx.tier == Tier::Quick;
@@ -53,6 +109,9 @@ pub fn run(ctx: &mut Ctx) {
     declared_sweep(ctx, nd);
     let nb = ctx.n(1_600, 16_000);
     boundary_stream(ctx, &cfg, nb);
+    repeated_types(ctx, if quick { 8 } else { 200 });
+    ctx.require("repeated-type-messages", 500);
+    ctx.require("typed-lookup-with-repeated-type", 500);
     ctx.require("accepted", 10_000);
     ctx.require("reject:NotStun", 100);
     ctx.require("reject:Truncated", 1_000);
